@@ -17,3 +17,10 @@ func C18Pruner(h *QueryHandler) *pruning.PartitionPruner { return h.pruner }
 func C18Transform(h *QueryHandler, ctx context.Context, sql, headerDB string) (string, bool) {
 	return h.getTransformedSQL(ctx, sql, headerDB)
 }
+
+// C18ResetCaches is the harness's own "fresh start" between unrelated statements: it clears the transform cache
+// and the pruner caches directly, independent of what the production hook InvalidateCaches does.
+func C18ResetCaches(h *QueryHandler) {
+	h.queryCache.Invalidate()
+	h.pruner.InvalidateAllCaches()
+}
